@@ -1,5 +1,6 @@
 import Rio.Proofs.ScanOfPack
 import Rio.Proofs.ListingOfTree
+import Rio.Proofs.PathsUnique
 /-!
 # C02 (continued) — pack and scan report the same wareID, and it is the specified one
 
@@ -56,6 +57,17 @@ theorem C02_scan_of_pack_fileset (H : Bytes → Bytes) (mu mg : Nat) (m : Meta) 
       .ok ((), specId H (toRoot m ch kids), specId H (toRoot m ch kids)) :=
   scan_of_pack_fileset H mu mg m ch kids hshape hattr hgood hpaths
 
+/-- **… and with the path hypothesis discharged**: what a file system guarantees is that the names below one directory
+    are pairwise distinct (`LDistF`); from that, no path is both a directory and something else
+    (`hpaths_of_distinct`, Rio/Proofs/PathsUnique.lean), and the statement holds with hypotheses on the fileset only. -/
+theorem C02_scan_of_pack_real_fileset (H : Bytes → Bytes) (mu mg : Nat) (m : Meta) (ch : Bytes) (kids : LForest)
+    (hshape : (m.kind = .dir ∧ LWFF kids) ∨ (m.kind ≠ .dir ∧ kids = .nil)) (hattr : AttrsOK m ch) (hgood : LGoodF kids)
+    (hdist : LDistF kids) :
+    packId H .tar losslessPackF ((flatten (toRoot m ch kids)).map entOf) = .ok (specId H (toRoot m ch kids)) ∧
+    unpackTar H nilOps mu mg losslessUnpack (hdrsOf ((flatten (toRoot m ch kids)).map entOf)) .eof () =
+      .ok ((), specId H (toRoot m ch kids), specId H (toRoot m ch kids)) :=
+  scan_of_pack_fileset H mu mg m ch kids hshape hattr hgood (hpaths_of_distinct m ch kids hshape hdist)
+
 /-! a fileset that meets the hypotheses: `./`, `./a` (file), `./d/`, `./d/x` (symlink) (test) -/
 
 def exM (k : Kind) (p : Nat) : Meta :=
@@ -97,6 +109,21 @@ example (H : Bytes → Bytes) :
       .ok (specId H (toRoot (exM .dir 0o755) [] exKids)) :=
   (C02_scan_of_pack_fileset H 0 0 (exM .dir 0o755) [] exKids (Or.inl ⟨rfl, ex_lwff⟩)
     (exAttrs _ _ _ (by decide) (by decide) (fun _ => rfl)) ex_lgood (by decide)).1
+
+theorem ex_ldist : LDistF exKids := by
+  unfold exKids
+  simp only [LDistF, LDist, LForest.comps, LTree.comp]
+  refine ⟨trivial, ⟨⟨trivial, trivial, by simp⟩, trivial, by simp⟩, ?_⟩
+  intro c hc
+  simp only [List.mem_cons, List.not_mem_nil, or_false] at hc
+  subst hc
+  decide
+
+example (H : Bytes → Bytes) :
+    packId H .tar losslessPackF ((flatten (toRoot (exM .dir 0o755) [] exKids)).map entOf) =
+      .ok (specId H (toRoot (exM .dir 0o755) [] exKids)) :=
+  (C02_scan_of_pack_real_fileset H 0 0 (exM .dir 0o755) [] exKids (Or.inl ⟨rfl, ex_lwff⟩)
+    (exAttrs _ _ _ (by decide) (by decide) (fun _ => rfl)) ex_lgood ex_ldist).1
 
 /-- what the hypothesis `hpaths` excludes: a listing with `./a` (file) and `./a/` (directory) is refused by the unpack
     model as a corrupt ware (before the `fix:` it was given a wareID that no unpack onto a file system could deliver) -/
